@@ -133,6 +133,16 @@ def run_case(case, ctx):
 				s.flush()
 			s.commit()
 		engine.dispose()
+		state = case.get('gdb_state', 'plain')
+		if state == 'wal':
+			import sqlite3
+			con = sqlite3.connect(gdb_path); con.execute('PRAGMA journal_mode=WAL'); con.commit(); con.close()
+		elif state == 'wal_hot':
+			# the genome file holds a stale state (identifiers rotated among the genomes); the committed transaction that sets the
+			# true identifiers is still in the write-ahead log beside it, which every SQLite reader takes into account
+			from vlib import sqlitestate
+			if not sqlitestate.stale_main_true_wal(gdb_path, attr):
+				state = 'plain'
 		ids = [e[0] for e in entries]
 		if attr == 'ncbi_id':
 			ids_arg = (np.array([str(i) for i in ids], dtype=object)) if neg == 'int_ids_as_str' else np.array(ids, dtype='i8')
@@ -166,7 +176,7 @@ def run_case(case, ctx):
 			err = None
 		except Exception as e:
 			db, err = None, e
-		classes = ['attr=' + attr, 'neg=' + str(neg)]
+		classes = ['attr=' + attr, 'neg=' + str(neg), 'gdb_state=' + state]
 		if negative:
 			if err is None:
 				try:
@@ -251,6 +261,7 @@ def gen_case(draw, tier):
 		'strings': draw(st.lists(ID_TEXT, max_size=20, unique=True)),
 		'small_ints': draw(st.booleans()),
 		'gdb_ext': draw(st.sampled_from(['.gdb', '.db'])),
+		'gdb_state': draw(st.sampled_from(['plain', 'wal_hot', 'plain', 'wal'])),
 		'gs_ext': draw(st.sampled_from(['.gs', '.h5'])),
 		'shuffle_rows': draw(st.sampled_from([True, True, False])),
 		'extra_files': draw(st.lists(st.sampled_from(['README.txt', 'notes', 'x.gs.bak', 'y.gdb~', 'z.fasta', 'w.hdf5', 'v.sqlite']), max_size=3, unique=True)),
